@@ -45,7 +45,7 @@ Definition xlink_trigger (n : node) : bool :=
                         (g_filters g)
   | NImage _ _ => true
   | NText _ _ chunks => existsb (fun c => match c with CH (Some _) _ => true | _ => false end) chunks
-  | NPath _ _ _ => false
+  | NPath _ _ _ _ => false
   end.
 
 (* writer.rs::has_xlink with its early returns; hx_gsub = Group::subroots, hx_paint = Path::subroots *)
@@ -57,7 +57,7 @@ Fixpoint hx_node (n : node) {struct n} : bool :=
                                                                   (* `while let Some(m) = mask { has_xlink(&m.root) .. }` *)
       || hx_group g                                               (* `if has_xlink(g) { return true }` *)
       || hx_gsub g                                                (* node.subroots(..) *)
-  | NPath _ fl st => hx_paint fl || hx_paint st                   (* only the sub-roots *)
+  | NPath _ _ fl st => hx_paint fl || hx_paint st                   (* only the sub-roots *)
   | NImage _ _ => true                                            (* `Node::Image(_) => return true` *)
   | NText _ flat chunks => xlink_trigger n || hx_group flat       (* textPath chunk; Text::subroots = flattened *)
   end
@@ -119,7 +119,7 @@ Section Write.
   (* write_element / write_group_element; `clip` = is_clip_path *)
   Fixpoint write_node (n : node) (clip : bool) {struct n} : list xout :=
     match n with
-    | NPath i fl st => [write_path i fl st None]
+    | NPath i _ fl st => [write_path i fl st None]
     | NImage i _ => [XE Timage (id_attr i ++ [AHrefData]) []]
     | NGroup g => write_group g clip
     | NText i flat chunks =>
@@ -134,7 +134,7 @@ Section Write.
           (fix go (l : list node) : list xout :=
              match l with
              | [] => []
-             | NPath pi fl st :: r => write_path pi fl st (option_map c_id c) :: go r
+             | NPath pi _ fl st :: r => write_path pi fl st (option_map c_id c) :: go r
              | _ :: r => go r
              end) kids
         else
